@@ -66,7 +66,7 @@ type c09Machine struct {
 	ver     int
 	classes map[string]bool
 	nt      bool
-	hadRemoval, hadUnavailSurvivor bool
+	hadRemoval, hadUnavailSurvivor, hadPartial bool
 }
 
 func (m *c09Machine) class(c string) { m.classes[c] = true }
@@ -195,8 +195,26 @@ func (m *c09Machine) reload(g2 gslbConf, t2 tableConf, mutations []string) *c09F
 		}
 		return c09F(key, "BalTableReload panicked: %v (mutations %v)", p, mutations)
 	}
-	if rerr != nil {
-		return c09F("reload-error-on-consistent-conf", "BalTableReload returned %v for a loader-accepted pair with equal cluster sets", rerr)
+	// partial failure: a cluster of gslb.data without an entry in cluster_table.data
+	// (the two files are shipped independently). BalTableReload applies the rest and
+	// returns an error naming it; nothing is claimed about that cluster's own lists
+	// (I2..I4 skip it), everything else - in particular the release of clusters
+	// dropped by the same reload - is checked as usual.
+	failed := map[string]bool{}
+	for c := range g2 {
+		if _, ok := t2[c]; !ok {
+			failed[c] = true
+		}
+	}
+	if rerr != nil && len(failed) == 0 {
+		return c09F("reload-error-on-consistent-conf", "BalTableReload returned %v for a loader-accepted pair in which every gslb cluster has a cluster_table entry", rerr)
+	}
+	if len(failed) > 0 {
+		m.class("reload-partial-failure")
+		m.hadPartial = true
+		if rerr == nil {
+			m.class("partial-failure-not-reported")
+		}
 	}
 	oldEff := c09Effective(m.g, m.t)
 	newEff := c09Effective(g2, t2)
@@ -238,6 +256,9 @@ func (m *c09Machine) reload(g2 gslbConf, t2 tableConf, mutations []string) *c09F
 	}
 	// I3
 	for k, l := range after {
+		if failed[k.Cluster] {
+			continue
+		}
 		if _, ok := newEff[k]; !ok && len(l) > 0 {
 			if _, inG := g2[k.Cluster][k.Sub]; inG && t2[k.Cluster][k.Sub] == nil {
 				return c09F("subcluster-absent-from-cluster-table-keeps-backends", "%s is still listed (and selectable) although sub-cluster %s is no longer in cluster_table for %s (mutations %v)", k, k.Sub, k.Cluster, mutations)
@@ -418,7 +439,8 @@ func c09Mutate(rt *rapid.T, label string, g gslbConf, t tableConf) (gslbConf, ta
 		kind := rapid.SampledFrom([]string{
 			"add-backend", "add-backend", "remove-backend", "remove-backend", "change-weight", "change-weight",
 			"rename-backend", "move-backend-addr", "duplicate-backend", "add-subcluster", "remove-subcluster",
-			"change-gslb-weight", "add-cluster", "remove-cluster", "drop-sub-from-gslb-only",
+			"change-gslb-weight", "remove-cluster-while-another-fails", "add-cluster", "remove-cluster",
+			"drop-cluster-from-table-only", "add-cluster-to-gslb-only", "restore-clusters-in-table", "drop-sub-from-gslb-only",
 			"add-sub-to-gslb-only", "shuffle", "noop",
 		}).Draw(rt, l+"-kind")
 		if rapid.IntRange(0, 255).Draw(rt, l+"-rare") == 137 { // (rapid biases draws towards small values: a mid value is rare)
@@ -440,6 +462,9 @@ func c09Mutate(rt *rapid.T, label string, g gslbConf, t tableConf) (gslbConf, ta
 		needIdx := map[string]bool{"remove-backend": true, "change-weight": true, "rename-backend": true, "move-backend-addr": true, "duplicate-backend": true}
 		if needIdx[kind] && len(t2[c][s]) == 0 {
 			kind = "add-backend"
+		}
+		if c != "" && t2[c] == nil && (kind == "add-subcluster" || kind == "add-sub-to-gslb-only") {
+			kind = "restore-clusters-in-table" // the cluster has no cluster_table entry at the moment
 		}
 		idx := func() int {
 			return rapid.IntRange(0, len(t2[c][s])-1).Draw(rt, l+"-idx")
@@ -496,6 +521,40 @@ func c09Mutate(rt *rapid.T, label string, g gslbConf, t tableConf) (gslbConf, ta
 		case "remove-cluster":
 			delete(g2, c)
 			delete(t2, c)
+		case "drop-cluster-from-table-only":
+			delete(t2, c)
+		case "add-cluster-to-gslb-only":
+			nc := fmt.Sprintf("c%d", rapid.IntRange(0, 2).Draw(rt, l+"-newcluster"))
+			if _, ok := g2[nc]; !ok {
+				g2[nc] = map[string]int{"s0": rapid.IntRange(1, 3).Draw(rt, l+"-gw")}
+				delete(t2, nc)
+			}
+		case "remove-cluster-while-another-fails":
+			// one reload drops cluster c entirely and carries another gslb cluster
+			// that has no cluster_table entry (yet / any more)
+			delete(g2, c)
+			delete(t2, c)
+			others := sortedKeys(g2)
+			if len(others) > 0 && rapid.Bool().Draw(rt, l+"-failexisting") {
+				delete(t2, others[rapid.IntRange(0, len(others)-1).Draw(rt, l+"-other")])
+			} else {
+				for _, nc := range []string{"c0", "c1", "c2"} {
+					if _, ok := g2[nc]; !ok && nc != c {
+						g2[nc] = map[string]int{"s0": rapid.IntRange(1, 3).Draw(rt, l+"-gw")}
+						delete(t2, nc)
+						break
+					}
+				}
+			}
+		case "restore-clusters-in-table":
+			for _, cc := range sortedKeys(g2) {
+				if t2[cc] == nil {
+					t2[cc] = map[string]subConf{}
+					for _, ss := range sortedKeys(g2[cc]) {
+						t2[cc][ss] = c09GenSub(rt, l+"-"+cc+ss)
+					}
+				}
+			}
 		case "drop-sub-from-table-only":
 			delete(t2[c], s)
 		case "drop-sub-from-gslb-only":
@@ -638,7 +697,7 @@ func TestC09(t *testing.T) {
 		if fail(m.reload(gslbConf{}, tableConf{}, []string{"remove-everything"})) {
 			return
 		}
-		m.nt = reloadsAfterRemoval || m.hadUnavailSurvivor
+		m.nt = reloadsAfterRemoval || m.hadUnavailSurvivor || m.hadPartial
 		fpb, _ := json.Marshal(hist)
 		cl := []string{}
 		for c := range m.classes {
@@ -649,6 +708,9 @@ func TestC09(t *testing.T) {
 		}
 		if reloadsAfterRemoval {
 			cl = append(cl, "reload-after-removal")
+		}
+		if m.hadPartial {
+			cl = append(cl, "history-with-partial-failure")
 		}
 		rec.Case(string(fpb), m.nt, cl...)
 		rec.Sample(hist)
